@@ -14,7 +14,7 @@ package pgo
 //@   at call go/parser.ParseFile set parsedImports = result0.Imports
 //@   at call go/parser.ParseFile set parsedPackage = result0.Name.Name
 //@   at call go/parser.ParseFile set parsedComments = result0.Comments
-//@   ensures [C10] the-import-guards-are-the-imports-of-the-text-as-the-go-parser-reads-it: err == nil ==> file.Imports == parsedImports
+//@   ensures [C10,C11] the-import-guards-are-the-imports-of-the-text-as-the-go-parser-reads-it: err == nil ==> file.Imports == parsedImports
 //@   ensures [C10] the-package-guard-is-the-package-clause-unless-it-was-supplied-by-the-augmentation: err == nil ==> file.Package == "" || file.Package == parsedPackage
 //@   ensures [C01,C10] a-package-clause-written-in-the-patch-is-always-the-guard: err == nil ==> file.Package == ite(len(ret("pgo/augment.Augment", 0, 1)) > 0 && ret("pgo/augment.Augment", 0, 1)[0].typ == dyn("*github.com/uber-go/gopatch/internal/pgo/augment.FakePackage"), "", parsedPackage)
 //@   at call pgo.augmentAST assert [C08] a-block-handed-on-has-statements: arg1.typ == dyn("*go/ast.BlockStmt") ==> arg1.val != nil && len(as("*go/ast.BlockStmt", arg1.val).List) > 0
